@@ -20,7 +20,8 @@ EXPLANATION = (
     "length 0..200; (6) constants and shapes equal the Parquet "
     "split-block Bloom filter specification (SALT words, 8 words per 32-byte block, bit from the "
     "top 5 bits of salt*key, key = low 32 bits, block index = ((h>>32)*n)>>32) and XXH64's "
-    "prime/rotation/shift constants (call-site-expanded (operator, constant) fingerprint). "
+    "prime/rotation/shift constants (call-site-expanded (operator, constant) fingerprint); (7) no byte "
+    "assembly of type int in the hash can carry bit 31 into the 64-bit lane (sign extension on widening). "
     "Decides these clauses, not hash/value equality for every input.")
 
 BF = "src/metadata/bloom_filter.c"
@@ -67,6 +68,9 @@ def run(ctx):
             raise AnalysisBroken("anchor function %s missing in %s" % (n, BF))
     ctx.clause("C20.1 monotone stores, insert/check symmetry, typed pairs, serialisation guards")
     ctx.clause("C20.2 Parquet SBBF constants/shapes and XXH64 constants")
+    ctx.clause("C20.3 the byte assemblies of the hash keep bit 31 clear when widened to 64 bits")
+    from ..rules import widen
+    widen.check_signext(ctx, ["src/util/xxhash.c", "src/metadata/bloom_filter.c"])
 
     # ---- which static-function parameters receive filter bits (one level through call sites)
     bits_params = {}  # fn name -> set(param index)
